@@ -53,7 +53,7 @@ def gen_config(rng, tier, flavor="db"):
         "gap_rate": rng.choice([0.0, 0.2, 0.5]),
         "counts": rng.choice(["none", "ints", "ints", "big"] if flavor == "db" else ["none", "ints"]),
         "err_style": rng.choice(["norm", "third"]),
-        "inbreeding": rng.choice([0.0, 0.0, 0.05, 0.3, 0.9, 0.99, 0.001]),
+        "inbreeding": rng.choice([0.0, 0.0, 0.05, 0.3, 0.9, 0.99, 0.001, 0.0005]),
         "temperatures": temps,
         "p_recomb": rng.choice([0.0, 0.5, 1.0]),
         "p_partial": rng.choice([0.0, 0.5, 1.0]),
@@ -1050,8 +1050,10 @@ def check_mutation_sweep_kernel(ctx, cfg):
                         finally:
                             sim.rng.probe = None
                             sim.rng.int_script = None
-                        if k[0] != n_sub:
+                        if k[0] > n_sub:
                             raise HarnessError("mutation.compound_step made %d draws for %d sub-steps: the sweep kernel cannot be extracted" % (k[0], n_sub))
+                        if k[0] < n_sub and any(ch[k[0]:]):
+                            continue  # fewer draws than sub-steps on this path: counted once, under the all-zero tail of the script
                         if dead[0]:
                             continue  # a draw index beyond that site's allele count: not a path
                         y = tuple(sorted(tuple(int(v) for v in row) for row in x))
